@@ -1,7 +1,7 @@
 (* C17: filter_rows, deduplicate and unpivot neither lose nor invent data.
    Property theorems only; proofs live in Proc/RowOps_proofs.v. *)
 From Coq Require Import List ZArith Bool.
-From DF Require Import Base.Str Base.ListX Base.Value Proc.RowOps Proc.RowOps_proofs.
+From DF Require Import Base.Str Base.ListX Base.Value Proc.RowOps Proc.RowOps_proofs Base.PyEq_proofs.
 Import ListNotations.
 
 (* filter_rows emits exactly the subsequence of rows satisfying its condition *)
@@ -35,6 +35,12 @@ Theorem C17_dedup_first_occurrences : forall pk kf,
   forall rows, keyed pk kf rows -> dedup_loop pk [] rows = Ok (first_occ kf [] rows).
 Proof. intros pk kf Hs Ht rows K. apply dedup_first_occurrences_sec; assumption. Qed.
 Print Assumptions C17_dedup_first_occurrences.
+
+(* ... unconditionally: Python equality of key tuples (py_eq pointwise) is proved to be an equivalence *)
+Theorem C17_dedup_first_occurrences_unconditional : forall pk kf rows,
+  keyed pk kf rows -> dedup_loop pk [] rows = Ok (first_occ kf [] rows).
+Proof. intros pk kf rows K. apply dedup_first_occurrences_sec; [exact key_eq_trans|exact K]. Qed.
+Print Assumptions C17_dedup_first_occurrences_unconditional.
 
 Theorem C17_dedup_subsequence : forall pk kf seen rows out,
   keyed pk kf rows -> dedup_loop pk seen rows = Ok out -> subseq out rows.
